@@ -66,6 +66,38 @@ def payloads_shape_ok(F, b):
     return cnt and loop
 
 
+def payloads_reader_ok(rp):
+    """size byte s with s % 3 == 1 enforced; then per entry a u8 code and a big-endian u16 size stored at sizes[code]"""
+    import flow
+    root = rp["tir"]["value"]
+    env = tir.LetEnv(root)
+    rem = False
+    for n in tir.walk(root):
+        if n.get("k") == "If" and n["cond"].get("k") != "LetCond":
+            c = strip(n["cond"])
+            if c.get("k") == "Binary" and c.get("op") in ("Ne", "Eq"):
+                for a, b in ((c["l"], c["r"]), (c["r"], c["l"])):
+                    a0 = strip(a)
+                    if a0.get("k") == "Binary" and a0.get("op") == "Rem" and tir.lit_int(a0["r"]) == 3 and tir.lit_int(b) == 1:
+                        branch = n["then"] if c["op"] == "Ne" else n.get("else")
+                        rem = rem or (branch is not None and any(x.get("k") == "Ret" and (declared(strip(x.get("e") or {})) or "").endswith("::Err") for x in tir.walk(branch)))
+    loops = [n for n in tir.walk(root) if n.get("k") == "For"]
+    ok_loop = False
+    for lp in loops:
+        reads = [c for g, c in flow.ordered_calls(lp["body"], lambda x: x.get("k") == "MethodCall" and (declared(x) or "").startswith("byteorder::ReadBytesExt::read_"))]
+        if [r["method"] for r in reads] != ["read_u8", "read_u16"] or L.endian_of(reads[1]) != "BigEndian":
+            continue
+        benv = tir.LetEnv(lp["body"])
+        for a in tir.walk(lp["body"]):
+            if a.get("k") == "Assign" and strip(a["l"]).get("k") == "Index":
+                ix = strip(strip(a["l"])["index"])
+                while ix.get("k") == "Cast":
+                    ix = strip(ix["e"])
+                src = benv.resolve(ix, peel=True)
+                ok_loop = ok_loop or src is reads[0] or (src.get("k") == "MethodCall" and src.get("method") == "read_u8")
+    return bool(rem and ok_loop)
+
+
 def run(F, rep, tier):
     M = model.Model(F, rep, want=("read_push", "write", "size"))
     rep.floor("version classes", len(M.classes), 25)
@@ -92,8 +124,7 @@ def run(F, rep, tier):
     ok = payloads_shape_ok(F, b)
     rep.ob("payloads.shape", ok, "io::slippi::ser::write", "payloads", "the Event Payloads event must be 0x35, the byte 3n+1, then n (code, u16 size) triples")
     rp = F.body("io::slippi::de::parse_payloads")
-    t2 = tir.pretty(rp["tir"]["value"])
-    rep.ob("payloads.reader", "(size Rem 3) Ne 1" in t2 and "buf.read_u16()?" in t2 and "sizes[(code as usize)]" in t2, "io::slippi::de::parse_payloads", "payloads", "the reader must parse the same triple layout")
+    rep.ob("payloads.reader", payloads_reader_ok(rp), "io::slippi::de::parse_payloads", "payloads", "the reader must parse the same triple layout")
     # 4: dropped content stays dropped consistently — the unknown path stores nothing in the game (C08 clause 2)
     C08.unknown_path_rule(F, rep)
     # junk after Game End inside the raw element is consumed but never stored: the only game fields read() itself writes
